@@ -11,6 +11,8 @@ Sources (each tagged with a kind):
   none      attribute/subscript use of a possibly-None re match result
   decode    strict .decode()/.encode()/_ensure_unicode()/_to_unicode()
   unpack    fixed-arity tuple unpacking of str.split()
+  index     constant subscript of str.split(): [k] with k not in (0, -1), or
+            any [k] of a separator-less split() (empty for blank text)
 
 Removed by enclosing handlers (class hierarchy of builtins + repo exception
 classes), by the guard facts of the syntax-directed walker, and by the
@@ -405,6 +407,32 @@ class EscapeAnalysis:
         if self.model_none:
             for e in self._none_uses(func, node, stmt):
                 _put(out, e)
+        if getattr(self, 'model_index', True):
+            for n in walk_no_nested(node):
+                if isinstance(n, ast.Subscript) and \
+                        isinstance(n.ctx, ast.Load) and \
+                        isinstance(n.value, ast.Call) and \
+                        isinstance(n.value.func, ast.Attribute) and \
+                        n.value.func.attr in ('split', 'rsplit') and \
+                        not isinstance(n.value.func.value, ast.Constant):
+                    idx = n.slice
+                    if isinstance(idx, ast.UnaryOp) and \
+                            isinstance(idx.op, ast.USub) and \
+                            isinstance(idx.operand, ast.Constant):
+                        k = -idx.operand.value
+                    elif isinstance(idx, ast.Constant) and \
+                            isinstance(idx.value, int):
+                        k = idx.value
+                    else:
+                        continue
+                    args = n.value.args
+                    nosep = not args or (isinstance(args[0], ast.Constant)
+                                         and args[0].value is None)
+                    # s.split(sep) always has at least one item;
+                    # s.split() is empty for a blank string
+                    if nosep or k not in (0, -1):
+                        _put(out, Esc('IndexError', 'index', func.file,
+                                      func.qualname, norm(n), n.lineno))
         return out
 
     def _key_guarded(self, sub, key, facts, root):
